@@ -411,8 +411,18 @@ where
                     // TODO: This should be optimized to prevent repetitions of the same
                     //       tokens recognitions.
                     let layout = context.layout_ahead();
+                    let position = context.position();
                     next_token = self.next_token(input, context, &layout_parser)?;
-                    context.set_layout_ahead(layout);
+                    if context.position().pos > position.pos {
+                        // More layout was skipped while lexing again (nothing
+                        // matched in the new state). It belongs to the same token:
+                        // the layout kept so far and the new one are adjacent in
+                        // the input.
+                        let start = position.pos.saturating_sub(layout.map_or(0, |l| l.len()));
+                        context.set_layout_ahead(Some(input.slice(start..context.position().pos)));
+                    } else {
+                        context.set_layout_ahead(layout);
+                    }
                     log!("{}: {:?}", "Token ahead".paint(LOG), next_token);
                 }
                 Action::Accept => {
